@@ -116,7 +116,8 @@ def evalAll (v : Variant) (attr : Toks) (item : Item) (input : Toks) (m : Outcom
             pm := !stable || P_C02 item mv, pr := some (!stable || P_C02 item rv) },
           row "C03" (P_C03 v attr item),
           row "C04" (P_C04 v attr item),
-          row "C05" (P_C05 v attr item),
+          -- second stage of a concrete-dependency fn: `Impl<T>` must forward to `T: Trait`
+          row "C05" (if (metaGet info "nested").isSome then P_C06 attr item else P_C05 v attr item),
           row "C06" (P_C06 attr item),
           row "C07" (P_C07 v attr item),
           row "C08" (P_C08 attr item (metaList info "fns")),
